@@ -24,10 +24,13 @@ var extRangeLegacyMsg = []golangproto.ExtensionRange{{Start: 100, End: 536870911
 func (*LegacyMsg) ExtensionRangeArray() []golangproto.ExtensionRange { return extRangeLegacyMsg }
 
 var (
-	ELegacyInt  = &golangproto.ExtensionDesc{ExtendedType: (*LegacyMsg)(nil), ExtensionType: (*int32)(nil), Field: 100, Name: "verif.legacy_int", Tag: "varint,100,opt,name=legacy_int", Filename: "verif_legacy.proto"}
-	ELegacyStr  = &golangproto.ExtensionDesc{ExtendedType: (*LegacyMsg)(nil), ExtensionType: (*string)(nil), Field: 101, Name: "verif.legacy_str", Tag: "bytes,101,opt,name=legacy_str", Filename: "verif_legacy.proto"}
-	ELegacyBin  = &golangproto.ExtensionDesc{ExtendedType: (*LegacyMsg)(nil), ExtensionType: ([]byte)(nil), Field: 102, Name: "verif.legacy_bin", Tag: "bytes,102,opt,name=legacy_bin", Filename: "verif_legacy.proto"}
-	ELegacyBool = &golangproto.ExtensionDesc{ExtendedType: (*LegacyMsg)(nil), ExtensionType: (*bool)(nil), Field: 103, Name: "verif.legacy_bool", Tag: "varint,103,opt,name=legacy_bool", Filename: "verif_legacy.proto"}
+	ELegacyInt = &golangproto.ExtensionDesc{ExtendedType: (*LegacyMsg)(nil), ExtensionType: (*int32)(nil), Field: 100, Name: "verif.legacy_int", Tag: "varint,100,opt,name=legacy_int", Filename: "verif_legacy.proto"}
+	ELegacyStr = &golangproto.ExtensionDesc{ExtendedType: (*LegacyMsg)(nil), ExtensionType: (*string)(nil), Field: 101, Name: "verif.legacy_str", Tag: "bytes,101,opt,name=legacy_str", Filename: "verif_legacy.proto"}
+	ELegacyBin = &golangproto.ExtensionDesc{ExtendedType: (*LegacyMsg)(nil), ExtensionType: ([]byte)(nil), Field: 102, Name: "verif.legacy_bin", Tag: "bytes,102,opt,name=legacy_bin", Filename: "verif_legacy.proto"}
+	// deliberately NOT registered: after a Marshal/Unmarshal round trip its value lives in the unknown fields,
+	// where the v1 API still finds it
+	ELegacyUnreg = &golangproto.ExtensionDesc{ExtendedType: (*LegacyMsg)(nil), ExtensionType: (*int32)(nil), Field: 104, Name: "verif.legacy_unregistered", Tag: "varint,104,opt,name=legacy_unregistered", Filename: "verif_legacy.proto"}
+	ELegacyBool  = &golangproto.ExtensionDesc{ExtendedType: (*LegacyMsg)(nil), ExtensionType: (*bool)(nil), Field: 103, Name: "verif.legacy_bool", Tag: "varint,103,opt,name=legacy_bool", Filename: "verif_legacy.proto"}
 )
 
 func init() {
